@@ -214,7 +214,9 @@ def empty(ctx: Ctx, rule="R-C08-EMPTY") -> None:
                 return True
             return None
 
-        r = flow.reach_under(g, {"*d": env}, flow.NORMAL_KINDS)
+        refill = {s_.id for s_ in g.nodes if s_.kind == "store" and s_.target == data and isinstance(s_.meta.get("value"), ast.Constant)
+                  and isinstance(s_.meta["value"].value, str) and s_.meta["value"].value.strip().startswith(("{", "["))}
+        r = flow.reach_under(g, {"*d": env}, flow.NORMAL_KINDS, blocked=refill)
         for pc in parses:
             n += 1
             a = pc.ast.args[0] if pc.ast.args else None
